@@ -404,6 +404,7 @@ def _inline_in_function(fn, caller_cls, helpers) -> int:
                 if pre:
                     return call
                 done += 1
+                h.inlined = getattr(h, "inlined", 0) + 1
                 e = _Subst(mapping, {k: v for k, v in rename.items() if k in h.comp_vars}).visit(copy.deepcopy(h.expr))
                 return ast.copy_location(e, call)
         return T().visit(node)
@@ -445,6 +446,7 @@ def _inline_in_function(fn, caller_cls, helpers) -> int:
                     block[i:i + 1] = new
                     caller_names.update(_names(ast.Module(body=new, type_ignores=[])))
                     done += 1
+                    h.inlined = getattr(h, "inlined", 0) + 1
                     continue      # look at the spliced statements too (helpers calling helpers)
                 except NotInlinable:
                     pass
@@ -489,6 +491,8 @@ def inline_new_helpers(tree, known: Set[str]) -> int:
             q = f"{cls}.{fn.name}" if cls else fn.name
             if q in known or seen_names[q] != 1 or isinstance(fn, ast.AsyncFunctionDef):
                 continue
+            if fn.name.startswith("__") and fn.name.endswith("__"):
+                continue        # special methods are called by the interpreter, not by name: never a helper
             h = Helper(fn, cls)
             if h.ok and h.body:
                 # a method name also defined by another class of the module could be reached by `self.<name>` of a subclass
@@ -510,7 +514,8 @@ def inline_new_helpers(tree, known: Set[str]) -> int:
                     refs += 1
                 if isinstance(n, ast.Constant) and n.value == h.name:
                     refs += 1       # __all__, getattr(..., "name")
-            if refs == 0:
+            if refs == 0 and getattr(h, "inlined", 0) > 0:
+                # (a new function nothing here calls stays: it may be called from elsewhere, and the rules should see it)
                 for fn, cls, holder in owners:
                     if fn is h.fn:
                         holder.remove(fn)
